@@ -112,7 +112,8 @@ class St:
 
 
 _FRESH1D = ('np.frombuffer', 'truenp.frombuffer', 'np.fromstring', 'truenp.fromstring', 'np.fromfile')
-_PASS_FUNCS = ('np.copy', 'np.asarray', 'np.array', 'np.ascontiguousarray', 'np.around', 'np.round', 'np.abs')
+_PASS_FUNCS = ('np.copy', 'np.asarray', 'np.array', 'np.ascontiguousarray', 'np.asfortranarray', 'np.around', 'np.round', 'np.rint',
+               'np.floor', 'np.ceil', 'np.trunc', 'np.abs', 'np.absolute', 'np.negative', 'np.multiply', 'np.divide', 'np.float64')
 _PASS_METHODS = ('astype', 'copy', 'view', 'newbyteorder', 'byteswap')
 
 
